@@ -574,8 +574,14 @@ class SamplingMethod(DirectMethod):
             self.add_constraints_after(stage, opti)
             self.add_objective(stage, opti)
         if phase==2:
+            self.set_initial_with_grid(stage, opti, stage._initial)
+            self.set_parameter(stage, opti)
 
-            self.set_initial(stage, opti, stage._initial)
+    def set_initial_with_grid(self, stage, master, initial_user):
+        """Apply the guesses, including those the time grid derives from the guessed (or parametric) horizon"""
+        opti = master.opti if hasattr(master, 'opti') else master
+        self.set_initial(stage, opti, initial_user)
+        if self.time_grid.localize_t0 or self.time_grid.localize_T:
             T_init = opti.debug.value(self.T, opti.initial())
             t0_init = opti.debug.value(self.t0, opti.initial())
 
@@ -591,8 +597,7 @@ class SamplingMethod(DirectMethod):
                     initial[self.T_local[k]] = control_grid_init[k+1]-control_grid_init[k]
 
             self.set_initial(stage, opti, initial)
-            self.set_initial(stage, opti, stage._initial) # Redo this: ocp.t is correct only now
-            self.set_parameter(stage, opti)
+        self.set_initial(stage, opti, initial_user) # Redo this: ocp.t is correct only now
 
 
     def add_constraints_before(self, stage, opti):
@@ -1028,6 +1033,10 @@ class SamplingMethod(DirectMethod):
                 found = True
                 opti.set_value(self.signals[p].coeff, value)
         assert found, "You attempted to set the value of a non-parameter."
+        if any(isinstance(e, MX) and is_equal(parameter, e) for e in [stage._T, stage._t0]):
+            # The horizon changed: guesses that the time grid derives from it change along
+            self.set_initial_with_grid(stage._augmented, opti, stage._initial)
+
     def add_parameter(self, stage, opti):
         for p in stage.parameters['']:
             self.P.append(opti.parameter(p.shape[0], p.shape[1]))
